@@ -83,7 +83,10 @@ impl Gen<'_> {
         self.next_val += 1;
         let v = match self.elem {
             ElemKind::U8 => MVal::Int(1 + (self.next_val % 0xC0)),
-            ElemKind::U64 => MVal::Int(100 + self.next_val),
+            ElemKind::U64 | ElemKind::U32 => MVal::Int(100 + self.next_val),
+            ElemKind::OptU64 => {
+                if self.dups && self.r.chance(1, 4) { MVal::OptInt(None) } else { MVal::OptInt(Some(100 + self.next_val)) }
+            }
             ElemKind::Str => MVal::Str(format!("s{}", self.next_val)),
             ElemKind::T24 | ElemKind::Big => MVal::Obj(1000 + self.next_val),
             ElemKind::F64 => {
@@ -105,7 +108,8 @@ impl Gen<'_> {
             // a value that is nowhere
             match self.elem {
                 ElemKind::U8 => MVal::Int(0xC8),
-                ElemKind::U64 => MVal::Int(99),
+                ElemKind::U64 | ElemKind::U32 => MVal::Int(99),
+                ElemKind::OptU64 => MVal::OptInt(if self.r.chance(1, 2) { None } else { Some(99) }),
                 ElemKind::Str => MVal::Str("absent".into()),
                 ElemKind::T24 | ElemKind::Big => MVal::Obj(999),
                 ElemKind::F64 => MVal::F((*self.r.pick(&[99.25f64, 0.0, -0.0, f64::NAN])).to_bits()),
@@ -135,6 +139,9 @@ fn elem_for(r: &mut Rng, with_nested: bool) -> ElemKind {
             ElemKind::Big,
             ElemKind::F64,
             ElemKind::F64,
+            ElemKind::U32,
+            ElemKind::OptU64,
+            ElemKind::OptU64,
         ])
     } else {
         *r.pick(&[
@@ -150,6 +157,8 @@ fn elem_for(r: &mut Rng, with_nested: bool) -> ElemKind {
             ElemKind::Zst,
             ElemKind::Big,
             ElemKind::F64,
+            ElemKind::U32,
+            ElemKind::OptU64,
         ])
     }
 }
@@ -471,6 +480,8 @@ pub fn execute(d: &ListDesc, w: &Arc<Warm>, keep_trace: bool) -> RunResult {
         ElemKind::Nested => exec_t::<List<u64>>(d, w, keep_trace),
         ElemKind::Big => exec_t::<Val<Big>>(d, w, keep_trace),
         ElemKind::F64 => exec_t::<f64>(d, w, keep_trace),
+        ElemKind::U32 => exec_t::<u32>(d, w, keep_trace),
+        ElemKind::OptU64 => exec_t::<Option<u64>>(d, w, keep_trace),
     }
 }
 
